@@ -28,6 +28,9 @@ CHECKS = {
  "C06": dict(cat="model_checking", technique="explicit-state BFS with a differential oracle (handler vs explicit-accrue-then-handler) through the real entrypoint; product sweep of the accrue instruction with exact conservation oracle",
    text="(b) For every state reached by sequences up to depth 3 (quick) / 4 (thorough) incl. clock advances, every handler step on a bank with pending interest is re-executed after an explicit accrual of the banks it transacts in; outcome and end state must coincide. (a) 10k+ accrue instructions over curves x fees x totals x utilisations x share values x elapsed times must keep share values monotone, fees non-negative / zero when disabled, be idempotent, and conserve value within a derived allowance.",
    ref="6 C06"),
+ "C07": dict(cat="exploration", technique="complete product over the bad-debt/insurance/deposit threshold lattice x depositor distributions x signers x mints through the real handle_bankruptcy instruction, exact-rational effect oracle; BFS over the admin alphabet from killed banks",
+   text="For every combination of bank archetype (SPL, Token-2022 with two fee settings, plain Token-2022), depositor distribution, insurance balance, bad debt at/around every threshold (with fractional parts), liability share value and signer/permissionless combination, plus the eligibility / target-bank / account-flag sub-product, the real instruction decides; every acceptance is judged for real bad debt, entitlement, insurance-first cover, exact pro-rata socialisation, non-negative share value, the kill rule, account disabling and debt clearance; from killed banks a 14-action admin alphabet is searched to depth 2/3 and the bank must stay killed.",
+   ref="6 C07"),
  "C15": dict(cat="model_checking", technique="explicit-state search to the fixpoint of the pause machine driven through the real instructions, time-abstract state key, region grid plus bounded off-grid deviations",
    text="All reachable states of the emergency-pause machine (pause / admin unpause / permissionless unpause / propagate / time ticks on the 600 s region grid plus <=1 (quick) or <=2 (thorough) one-second deviations) are explored to the fixpoint through marginfi::entry; every pause edge and every state is checked against the 30-minute push, 60-minute horizon, three-per-window and 24-hour reset bounds, and a user deposit probe shows blocking ends without anyone acting.",
    ref="6 C15"),
